@@ -71,7 +71,10 @@ pub fn plan_c09(thorough: bool) -> Plan {
         let mut v = vec![];
         for ll in [1u32, 2, 3] {
             for seg in [4096u64, 8192, 0] {
-                v.push((ll, seg, 5));
+                // length 5 (111 111 sequences over the 10 symbols) for one configuration, 4 elsewhere
+                // (plan size: every worker process holds the whole plan in memory)
+                let diag = matches!((ll, seg), (2, 4096));
+                v.push((ll, seg, if diag { 5 } else { 4 }));
             }
         }
         v
